@@ -721,14 +721,12 @@ def cfgOfFlags (flags : String) (elements modifiers : List Gen.Entry) : Cfg :=
 
 /-- the implicit output at the end of `execute_vyxal` -/
 def finish (flags : String) (σ : RSt) : R RSt := do
-  let origEmpty := σ.stack.isEmpty
-  let (v, σ1) := σ.pop1
-  let o ← flags.toList.foldlM (fun o c => applyFlag origEmpty σ1.stack c o) (OutV.val v)
-  if (!(σ1.printed || flags.contains 'O')) || flags.contains 'o' then
+  let o ← flags.toList.foldlM (fun o c => applyFlag σ.stack.isEmpty σ.pop1.2.stack c o) (OutV.val σ.pop1.1)
+  if (!(σ.pop1.2.printed || flags.contains 'O')) || flags.contains 'o' then
     match o with
-    | .text s => .ok (σ1.print (s ++ "\n"))
-    | .val v => do let s ← printText v; .ok (σ1.print (s ++ "\n"))
-  else .ok σ1
+    | .text s => .ok (σ.pop1.2.print (s ++ "\n"))
+    | .val v => do let s ← printText v; .ok (σ.pop1.2.print (s ++ "\n"))
+  else .ok σ.pop1.2
 
 def initState (flags : String) (inputs : List Val) : RSt :=
   { stack := if flags.contains 'H' then [.int 100] else [], inputs := [(inputs, 0)] }
